@@ -538,14 +538,16 @@ def build_evidence(run, new, known, not_judged):
         samples = [{"config": k[0], "case": k[1], "status": r.status} for k, r in list(res.items())[:3]]
     expected_routes = mod.expected_routes(run.tier) if hasattr(mod, "expected_routes") else []
     gaps = [x for x in expected_routes if x not in routes]
-    exhaustive = (not run.deadline_hit) and status_hist.get("not_run", 0) == 0 and \
-        not any(r.capped for r in res.values()) and bool(getattr(mod, "EXHAUSTIVE_WITHIN_BOUNDS", True))
+    # (a case whose distinct-outcome set hit FX_DISTINCT_CAP was still enumerated completely: only its contribution to distinct_nontrivial is an
+    # undercount, which is reported separately below)
+    exhaustive = (not run.deadline_hit) and status_hist.get("not_run", 0) == 0 and bool(getattr(mod, "EXHAUSTIVE_WITHIN_BOUNDS", True))
     cov = {
         "evaluations": evals,
         "distinct_nontrivial": nontriv,
         "rule": mod.RULE,
         "samples": samples,
         "exhaustive": exhaustive,
+        "distinct_count_capped_cells": sum(1 for r in res.values() if r.capped),
         "case_cells": len(res),
         "status_histogram": status_hist,
         "routes": dict(sorted(routes.items())),
